@@ -20,6 +20,8 @@ CONSTANTS
   EShift = 12
   SNum = {1,3,25}
   SDen = {1,10}
+  LSNum = {1,2,3}
+  Keywords = "independent"
   Args = "read_only"
   Export = TRUE
 INVARIANT ZOk
@@ -30,6 +32,8 @@ INVARIANT TailSymmetricInv
 INVARIANT OntoSupportInv
 INVARIANT InverseCDFInv
 INVARIANT LinArgsInv
+INVARIANT OmittedInv
+INVARIANT FormsInv
 INVARIANT TextInv
 INVARIANT SpaceInv
 INVARIANT DefaultInv
